@@ -18,8 +18,13 @@ var subjects = []string{
 	"chore: bump (deps) to 1 2 3",
 	"Merge of x: y",
 	"feat(api): Alice asked for this",
+	"fix(pkg/git): path as scope",
+	"docs(README.md): dotted scope",
+	"feat(a, b): two scopes",
+	"perf(ci: lint): colon inside the scope",
+	"style(my-scope_1): word scope",
 }
-var cctypes = []string{"", "feat", "fix", "docs", "", "", "refactor", "chore", "", "feat"}
+var cctypes = []string{"", "feat", "fix", "docs", "", "", "refactor", "chore", "", "feat", "fix", "docs", "feat", "perf", "style"}
 var dirs = []string{"", "src/", "src/main/java/", "docs/", "my dir/", "d 1 2/"}
 var bases = []string{"a.txt", "B.java", "readme.md", "my file.txt", "x 3 4.txt", "Main.java", "util.go", "c.txt"}
 
